@@ -16,7 +16,7 @@ Line protocol of the `stream` engine (the leading token `stream` is stripped by 
                                 → `<ret>:<consumed>:<producedhex | #len>:<reqs>:<digest>`
                                   reqs = `<site>.<lo>.<hi>.<last>.<flush>` joined by `/`, `-` if none
     T:<size>                    take_output(size)                   → `<n>:<hex | ->:<digest>`
-  digest = st,ip,lf,lp,lb(-1 in skeleton mode),lbb,ao,rm,le,init,to,fm,q,w,b,hint,cat,app,magic,lw,
+  digest = st,ip,lf,lp,lb(-1 in skeleton mode; 0 when lbb = 0: the code leaves a stale byte there),lbb,ao,rm,le,init,to,fm,q,w,b,hint,cat,app,magic,lw,
            mode,dlcm,usedict,rpos,rcur,2*fin+more
   A model panic prints `panic` for that call and ends the line, fuel exhaustion `fuel`, an
   oracle answer that contradicts the skeleton appends `!oracle` to the call's answer; a
@@ -29,7 +29,7 @@ def b2n (b : Bool) : Nat := if b then 1 else 0
 
 def digest (s : St) (full : Bool) : String :=
   let p := s.params
-  let lb : String := if full then toString s.lastBytes else "-1"
+  let lb : String := if full then toString (if s.lastBytesBits = 0 then 0 else s.lastBytes) else "-1"
   let fin := b2n (isFinished s) * 2 + b2n (hasMoreOutput s)
   s!"{s.streamState.code},{s.inputPos},{s.lastFlushPos},{s.lastProcessedPos},{lb},{s.lastBytesBits},{s.pending.length},{s.remainingMetadata},{b2n s.isLastBlockEmitted},{b2n s.isInitialized},{s.totalOut},{s.isFirstMb.code},{p.quality},{p.lgwin},{p.lgblock},{p.sizeHint},{b2n p.catable},{b2n p.appendable},{b2n p.magic},{b2n p.largeWindow},{p.mode},{p.dlcm},{b2n p.useDict},{s.ring.pos},{s.ring.curSize},{fin}"
 
@@ -94,8 +94,8 @@ def runCalls (full : Bool) : St → List String → List String → List String
           let consumed := input.length - io.availIn
           let prod := if full then bytesToHex io.out else s!"#{io.out.length}"
           let reqs := if io.reqs.isEmpty then "-" else "/".intercalate (io.reqs.map reqToken)
-          let bad := if s'.oracleBad ∨ (s'.nEnc - base ≠ answers.length) then "!oracle" else ""
-          let s' := { s' with oracleBad := false }
+          let bad := if s'.oracleBad ∨ (full ∧ s'.prefixBad) ∨ (s'.nEnc - base ≠ answers.length) then "!oracle" else ""
+          let s' := { s' with oracleBad := false, prefixBad := false }
           runCalls full s' rest (s!"{b2n ret}:{consumed}:{prod}:{reqs}:{digest s' full}{bad}" :: acc)
       | _, _, _, _ => "bad-op" :: acc
     | _ => "bad-op" :: acc
